@@ -41,6 +41,8 @@ partial def showV : Val → String
   | .zstk f => s!"Z {Form.str f}"
   | .zcnd f => s!"Y {Form.str f}"
   | .anys xs => if xs.isEmpty then "A [ ]" else s!"A [ {" ".intercalate (xs.map showV)} ]"
+  | .opv .none => "N"
+  | .opv o => s!"O{Op.str o}"
   | v => short v
 
 def showItem : Item → String
